@@ -28,8 +28,8 @@ DEMOCMD=$(grep -v '^\s*$' "$SRC/demo_cmd.txt" | grep 'go test' | head -1 | sed '
 PKG=$(echo "$DEMOCMD" | grep -o '\./src/[^ ]*' | head -1)
 [ -z "$PKG" ] && { echo "$ID: cannot parse demo_cmd ($DEMOCMD)"; exit 1; }
 cp "$DEMO" "$WT/$PKG/"
-RUNDEMO="$DEMOCMD"
-case "$PKG" in *src/node*|*src/babble*|*src/dummy*|*src/mobile*) RUNDEMO="flock /tmp/babble-nodetest.lock $DEMOCMD";; esac
+echo "cd $WT && $DEMOCMD" > /tmp/cs-demo-$ID.sh
+RUNDEMO="/verif/scripts/netns_run.sh bash /tmp/cs-demo-$ID.sh"
 echo "== demo without patch: $RUNDEMO" >>"$LOG"
 ( eval "$RUNDEMO" ) >>"$LOG" 2>&1; WITHOUT=$?
 git apply "$SRC/patch.diff" >>"$LOG" 2>&1
@@ -38,7 +38,7 @@ echo "== demo with patch" >>"$LOG"
 ( eval "$RUNDEMO" ) >>"$LOG" 2>&1; WITH=$?
 rm -f "$WT/$PKG/$(basename "$DEMO")"
 echo "== existing suite with patch" >>"$LOG"
-flock /tmp/babble-nodetest.lock go test -vet=off -count=1 -timeout 25m ./... > "$DEST/suite.log" 2>&1; SUITE=$?
+REPO_DIR="$WT" /verif/scripts/baseline_off.sh > "$DEST/suite.log" 2>&1; SUITE=$?
 FAILS=$(grep -E '^--- FAIL' "$DEST/suite.log" | awk '{print $3}' | sort -u | tr '\n' ' ')
 NONFLAKY=$(echo "$FAILS" | tr ' ' '\n' | grep -v -E '^(TestJoinFull.*|TestJoinLateExtra|TestLeaveRequest)?$' | tr '\n' ' ')
 cp "$SRC/patch.diff" "$DEST/patch.diff"
